@@ -67,6 +67,12 @@ def run(ctx):
         # the snapshot of a guard includes the mark bits: same object, mark changed between two acquisitions into the same guard
         jobs.append('%s+g;;acq0:0,mrk0:1,acq0:0,tch0,acqe0:0,mrk0:2,acqe0:0,acq0:1,mrk0:0,acq0:1,acq0:0,swp0:2' % c)
         jobs.append('%s+g;;acq0:0,acq0:0,acqe0:1,acq0:1,tch0,tch1;mrk0:1,mrk0:3,swp0:0,mrk0:2' % c)
+        # guards that hold a MARKED NULL pointer (operator bool is true, get() is null): copy / move / swap / assignment / reset of such a
+        # guard must leave the protection of the thread's other guards intact (region nesting, slot ownership), also across reclamation points
+        tail = 'swp1:3,swp2:3,swp2:3,swp2:3,rgn1,rgn0,rgn1,rgn0,rgn1,rgn0,tch2'
+        for mid in ('cpy0:1,rst1,rst0', 'mov0:1,rst1,rst0', 'cpy0:1,cpy1:0,sfa0,rst0,rst1', 'cgd0:0,swg0:1,rst1,rst0', 'acqe0:1,cpy1:0,rst0,rst1'):
+            jobs.append('%s+g;;acq1:2,nul0:1,acq0:0,%s,%s' % (c, mid, tail))
+        jobs.append('%s+g;;acq1:2,nul0:1,acq0:0,cpy0:1,rst1,rst0,sig1,wai2,tch2;wai1,swp1:0,swp2:0,swp2:0,rgn1,rgn0,rgn1,rgn0,sig2' % c)
     run_client(ctx, jobs, pb=2 if q else 3, max_exec=300 if q else 10000)
     for r in ctx.tv[1:3]:
         ctx.samples.append({'driver': 'reclaim', 'history': canonical_sample(execution_lines(r['trace'], 2), 80)})
@@ -76,5 +82,5 @@ def run(ctx):
                   '(b) TLC enumerates ALL guard operation sequences of length 2 (3: thorough sample) of the GuardAlgebra spec; each is replayed on the real '
                   'reclaimers where the observed guard contents, liveness of the objects and the exactly-once census are validated against abs/Reclamation; '
                   '(c) acquire / acquire_if_equal race with a thread replacing the source (all schedules, bound 2/3): results must be linearizable w.r.t. the '
-                  'cell as an atomic pointer; non-trivial = distinct sequences / overlapping histories',
+                  'cell as an atomic pointer; (d) the same operations on guards that hold a marked null pointer, followed by retirement of what the thread\'s other guard protects and by reclamation points; non-trivial = distinct sequences / overlapping histories',
                   ['pointer identities are heap block numbers (never dereferenced)', 'MaxUpperMarkBits is the default 16 in the real instantiations'])
